@@ -27,6 +27,7 @@ def regenerate_all():
     import gen_mainccalls
     import gen_skeleton
     import gen_trysites
+    import gen_rowwrites
     steps = [("tables", lambda: gen.regenerate(None)), ("callsites", lambda: gen_callsites.regenerate(None)),
              ("radius", lambda: gen_radius.regenerate(None)), ("booksites", lambda: gen_booksites.regenerate(None)),
              ("bookcalls", lambda: gen_bookcalls.regenerate(None)), ("exitsites", lambda: gen_exitsites.regenerate(None)),
@@ -42,7 +43,8 @@ def regenerate_all():
              ("solve-main-calls", lambda: gen_mainccalls.regenerate(None)),
              ("main-loop-skeleton", lambda: gen_skeleton.regenerate(None)),
              ("controller-skeletons", lambda: gen_skeleton.regenerate_ctrl(None)),
-             ("try-sites", lambda: gen_trysites.regenerate(None))]
+             ("try-sites", lambda: gen_trysites.regenerate(None)),
+             ("row-writes", lambda: gen_rowwrites.regenerate(None))]
     for name, fn in steps:
         try:
             fn()
